@@ -36,6 +36,9 @@ type Val struct {
 	// Lit / LitEnv: a function literal and the environment it closes over (conflicts := func(key string) bool {..})
 	Lit    *ast.FuncLit
 	LitEnv *Env
+	// Elems: a slice or array built from a composite literal (a table of options)
+	Elems   []*Val
+	IsSlice bool
 }
 
 func (v *Val) String() string {
@@ -77,6 +80,8 @@ type Env struct {
 	// search loops whose body does not depend on the element under the rule's hooks - "some element satisfies P"
 	RangeOnce bool
 	depth     int
+	// branch: a pending "continue" / "break" of the innermost loop being interpreted
+	branch string
 }
 
 func (env *Env) child(pkg *packages.Package) *Env {
@@ -245,6 +250,13 @@ func (env *Env) eval(e ast.Expr) *Val {
 				}
 			}
 		}
+		if base != nil && base.IsSlice {
+			if ix := env.eval(x.Index); ix != nil && ix.C != nil && ix.C.Kind() == constant.Int {
+				if n, exact := constant.Int64Val(ix.C); exact && n >= 0 && int(n) < len(base.Elems) {
+					return base.Elems[n]
+				}
+			}
+		}
 		env.fail(e, "index "+types.ExprString(e))
 	case *ast.FuncLit:
 		return &Val{Lit: x, LitEnv: env}
@@ -252,6 +264,19 @@ func (env *Env) eval(e ast.Expr) *Val {
 		if tv, ok := info.Types[x]; ok {
 			if _, isMap := tv.Type.Underlying().(*types.Map); isMap {
 				return &Val{MapLit: x, MapPkg: env.Pkg}
+			}
+		}
+		if tv, ok := info.Types[x]; ok {
+			switch tv.Type.Underlying().(type) {
+			case *types.Slice, *types.Array:
+				sv := &Val{IsSlice: true}
+				for _, el := range x.Elts {
+					if _, keyed := el.(*ast.KeyValueExpr); keyed {
+						env.fail(e, "slice literal with indices")
+					}
+					sv.Elems = append(sv.Elems, env.eval(el))
+				}
+				return sv
 			}
 		}
 		v := &Val{Fields: map[string]*Val{}, Complete: true}
@@ -339,6 +364,9 @@ func (env *Env) evalCall(c *ast.CallExpr) *Val {
 				v := env.eval(c.Args[0])
 				if v.C != nil && v.C.Kind() == constant.String {
 					return intVal(int64(len(constant.StringVal(v.C))))
+				}
+				if v.IsSlice {
+					return intVal(int64(len(v.Elems)))
 				}
 				env.fail(c, "len of non-constant")
 			case "max", "min":
@@ -446,6 +474,15 @@ func (env *Env) evalCallN(c *ast.CallExpr) []*Val {
 				}
 			}
 		}
+		if cv == nil {
+			// a function held in a field or an element of an evaluated value (opts[i].apply)
+			switch ast.Unparen(c.Fun).(type) {
+			case *ast.SelectorExpr, *ast.IndexExpr:
+				if fv, ferr := env.Eval(c.Fun); ferr == nil && fv != nil && fv.Lit != nil {
+					cv = fv
+				}
+			}
+		}
 		if cv == nil || cv.Lit == nil || env.depth > 6 {
 			env.fail(c, "dynamic call")
 		}
@@ -464,7 +501,30 @@ func (env *Env) evalCallN(c *ast.CallExpr) []*Val {
 				i++
 			}
 		}
+		var lnamed []types.Object
+		if cv.Lit.Type.Results != nil {
+			for _, fld := range cv.Lit.Type.Results.List {
+				for _, nm := range fld.Names {
+					if o := le.Pkg.TypesInfo.Defs[nm]; o != nil {
+						lnamed = append(lnamed, o)
+						if z := zeroVal(o.Type()); z != nil {
+							ce.Vars[o] = z
+						}
+					}
+				}
+			}
+		}
 		ret, done := ce.execBlock(cv.Lit.Body.List)
+		if done && len(ret) == 0 && len(lnamed) > 0 {
+			for _, o := range lnamed {
+				v, ok := ce.Vars[o]
+				if !ok {
+					env.fail(c, "closure: named result without a value")
+				}
+				ret = append(ret, v)
+			}
+			return ret
+		}
 		if !done || len(ret) == 0 {
 			env.fail(c, "closure does not return a value on this path")
 		}
@@ -507,10 +567,31 @@ func (env *Env) evalCallN(c *ast.CallExpr) []*Val {
 			ce.Vars[fi.Pkg.TypesInfo.Defs[fi.Decl.Recv.List[0].Names[0]]] = rv
 		}
 	}
+	// found(r.storage.Load(id)): the results of the inner call are the parameters, in order
+	var spread []*Val
+	if len(c.Args) == 1 && fi.Decl.Type.Params.NumFields() > 1 {
+		if ic, ok := ast.Unparen(c.Args[0]).(*ast.CallExpr); ok {
+			if env.Multi != nil {
+				if vals, ok := env.Multi(env, ic); ok {
+					spread = vals
+				}
+			}
+			if spread == nil {
+				spread = env.evalCallN(ic)
+			}
+			if len(spread) != fi.Decl.Type.Params.NumFields() {
+				env.fail(c, "argument list from a call")
+			}
+		}
+	}
 	i := 0
 	for _, fld := range fi.Decl.Type.Params.List {
 		for _, nm := range fld.Names {
-			if i < len(c.Args) {
+			if spread != nil {
+				if spread[i] != nil {
+					ce.Vars[fi.Pkg.TypesInfo.Defs[nm]] = spread[i]
+				}
+			} else if i < len(c.Args) {
 				// an argument outside the domain (a context, a reader) stays unbound: the call fails only if
 				// the callee's path uses it
 				if v, err := env.Eval(c.Args[i]); err == nil && v != nil {
@@ -720,7 +801,85 @@ func (env *Env) execBlock(list []ast.Stmt) ([]*Val, bool) {
 				continue
 			}
 			env.fail(s, "expression statement")
+		case *ast.BranchStmt:
+			if x.Label == nil && (x.Tok == token.CONTINUE || x.Tok == token.BREAK) {
+				env.branch = x.Tok.String()
+				return nil, false
+			}
+			env.fail(s, "branch statement")
+		case *ast.IncDecStmt:
+			v := env.eval(x.X)
+			if v == nil || v.C == nil || v.C.Kind() != constant.Int {
+				env.fail(s, "increment of a non-integer")
+			}
+			op := token.ADD
+			if x.Tok == token.DEC {
+				op = token.SUB
+			}
+			if !env.assignTo(x.X, &Val{C: constant.BinaryOp(v.C, op, constant.MakeInt64(1))}) {
+				env.fail(s, "increment target")
+			}
+		case *ast.ForStmt:
+			// a counting loop over an evaluated table: interpreted concretely, bounded
+			if x.Init != nil {
+				env.execBlock([]ast.Stmt{x.Init})
+			}
+			for n := 0; ; n++ {
+				if n > 256 {
+					env.fail(s, "loop bound")
+				}
+				if x.Cond != nil {
+					c := env.eval(x.Cond)
+					if c == nil || c.C == nil || c.C.Kind() != constant.Bool {
+						env.fail(s, "loop condition")
+					}
+					if !constant.BoolVal(c.C) {
+						break
+					}
+				}
+				r, d := env.execBlock(x.Body.List)
+				if d {
+					return r, true
+				}
+				if env.branch == "break" {
+					env.branch = ""
+					break
+				}
+				env.branch = ""
+				if x.Post != nil {
+					env.execBlock([]ast.Stmt{x.Post})
+				}
+			}
 		case *ast.RangeStmt:
+			if rv, rerr := env.Eval(x.X); rerr == nil && rv != nil && (rv.IsSlice || (rv.C != nil && rv.C.Kind() == constant.Int)) {
+				// a table built from a literal (or a constant count): every element in order
+				n := len(rv.Elems)
+				if !rv.IsSlice {
+					n64, _ := constant.Int64Val(rv.C)
+					n = int(n64)
+				}
+				if n > 256 {
+					env.fail(s, "loop bound")
+				}
+				for i := 0; i < n; i++ {
+					if x.Key != nil {
+						env.assignTo(x.Key, intVal(int64(i)))
+					}
+					if x.Value != nil && rv.IsSlice {
+						env.assignTo(x.Value, rv.Elems[i])
+					}
+					r, d := env.execBlock(x.Body.List)
+					if d {
+						return r, true
+					}
+					if env.branch == "break" {
+						env.branch = ""
+						break
+					}
+					env.branch = ""
+				}
+				continue
+			}
 			if !env.RangeOnce {
 				env.fail(s, fmt.Sprintf("statement %T", s))
 			}
@@ -736,6 +895,13 @@ func (env *Env) execBlock(list []ast.Stmt) ([]*Val, bool) {
 			}
 		default:
 			env.fail(s, fmt.Sprintf("statement %T", s))
+		}
+		if env.branch != "" {
+			if _, isSwitch := s.(*ast.SwitchStmt); isSwitch && env.branch == "break" {
+				env.branch = ""
+				continue
+			}
+			return nil, false
 		}
 	}
 	return nil, false
